@@ -48,7 +48,7 @@ type dtBound struct {
 
 type dtEval struct {
 	predMemo map[*an.Func][][]dtGuard // predicate functions with several returns, as guarded paths
-	e *Env
+	e        *Env
 	// collected atoms
 	intTerms  map[string]types.Type
 	boolAtoms map[string]bool
@@ -107,6 +107,10 @@ func (ev *dtEval) canon(x ast.Expr, fr *dtFrame) string {
 		for _, a := range v.Args {
 			args = append(args, ev.canon(a, fr))
 		}
+		if id, isId := an.Unparen(v.Fun).(*ast.Ident); isId && isRecClosure(fr.info, id) {
+			// a closure calling itself (or being started): its name is irrelevant
+			return "$rec(" + strings.Join(args, ",") + ")"
+		}
 		return ev.canon(v.Fun, fr) + "(" + strings.Join(args, ",") + ")"
 	case *ast.IndexExpr:
 		return ev.canon(v.X, fr) + "[" + ev.canon(v.Index, fr) + "]"
@@ -118,6 +122,19 @@ func (ev *dtEval) canon(x ast.Expr, fr *dtFrame) string {
 		return v.Op.String() + ev.canon(v.X, fr)
 	}
 	return an.ExprString(x)
+}
+
+// isParam: o is a parameter of some function (a predicate handed in, `pred`), not a local closure.
+func (ev *dtEval) isParam(o types.Object) bool {
+	v, ok := o.(*types.Var)
+	if !ok {
+		return false
+	}
+	if ev.root == nil {
+		return false
+	}
+	// parameters are declared outside the body of the function the row is about (or in a literal's parameter list)
+	return o.Pos() < ev.root.Pos() || o.Pos() >= ev.root.End() || v.Parent() == nil
 }
 
 // pkgConst: o is a package-level variable of a workspace package that has an initialiser and that nothing assigns or takes
